@@ -271,12 +271,19 @@ CLAIMED = {
     "C07": dict(
         text="Lean 4 theorems (AQ.Props.C07), no hypothesis on the peer: FLOW_CONTROL_ERROR / STREAM_LIMIT_ERROR / FINAL_SIZE_ERROR "
              "are raised if and only if the frame exceeds the limit in force / the stream count / contradicts the fixed final size "
-             "(STREAM and RESET_STREAM; a compliant peer is never accused), the enforced MAX_DATA, MAX_STREAMS (bidi/uni) and per-stream "
+             "(STREAM and RESET_STREAM; a compliant peer is never accused); STREAM_LIMIT_ERROR / STREAM_STATE_ERROR iff statements for "
+             "every frame type naming a stream id (stream_limit_iff, stream_id_frames_limit_iff, stream_id_frames_state_iff: "
+             "RESET_STREAM, STOP_SENDING, MAX_STREAM_DATA, STREAM_DATA_BLOCKED); a stream is discarded only when its receive half "
+             "finished by FIN or RESET_STREAM and its send half finished, frames are ignored only for discarded streams "
+             "(discard_only_when_receive_finished, ignored_only_after_discard; stop_stream / STOP_SENDING never release a stream); the enforced MAX_DATA, MAX_STREAMS (bidi/uni) and per-stream "
              "MAX_STREAM_DATA limits equal the largest value ever written (all three at run level: enforced_eq_advertised, "
              "streams_enforced_eq_advertised, stream_enforced_eq_advertised), reassembly bytes <= limits, "
              "CRYPTO buffering <= 524288, remote challenges <= 32, peer-CID stock and pending retirements bounded. Tie: call-level "
              "correspondence on real connections with offsets/lengths/final sizes at limit-1, limit, limit+1, 2^62-1 on all stream "
-             "types interleaved with limit updates and unbounded repetition loops; wire oracle against the limits put on the wire.",
+             "types interleaved with limit updates and unbounded repetition loops; all five stream-id frame types on never-opened ids "
+             "around MAX_STREAMS (also after it was raised, wrong initiator / direction); stop_stream then over-limit frames before/after "
+             "the STOP_SENDING is acked or lost; wire oracle against the limits put on the wire (the oracle itself decides from the "
+             "peer's frames when a receive half is complete).",
         note="Trusted: Lean kernel; standard axioms; harness/impl_flow.py; stream_enforced_eq_advertised assumes the fixes "
              "1778857 and 51656a6 are in place (FixedQ); a final size below data already received is accepted by the code "
              "(RFC 9000 4.5 observation, outside the property text).",
